@@ -26,9 +26,9 @@ import (
 // escrow account: escrow == R0 − credited + inflight + executedOut.
 
 type c04Group struct {
-	base     string
-	credited sdkmath.Int
-	execOut  sdkmath.Int
+	base             string
+	credited         sdkmath.Int
+	execOut          sdkmath.Int
 	perChainCredited map[string]sdkmath.Int
 	perChainOut      map[string]sdkmath.Int
 }
